@@ -79,6 +79,8 @@ type Sys struct {
 	committed engine.SpecState // spec: last completed commit
 	stamp     uint64
 	writers   int // active write transactions (between begin-locked and close)
+	readers   int // active read transactions
+	closing   bool // File.Close was released: the File is zeroed when it returns, so the lock is not probed any more
 
 	Events   []Event
 	Failures []engine.Failure
@@ -105,6 +107,9 @@ func (s *Sys) hook(name string, args ...uint64) {
 			if name == "begin-locked" {
 				rw := len(args) > 0 && args[0] == 0
 				t.txStack = append(t.txStack, rw)
+				if !rw {
+					s.readers++
+				}
 				if rw {
 					s.writers++
 					if s.writers > 1 {
@@ -114,6 +119,8 @@ func (s *Sys) hook(name string, args ...uint64) {
 			} else if n := len(t.txStack); n > 0 {
 				if t.txStack[n-1] {
 					s.writers--
+				} else {
+					s.readers--
 				}
 				t.txStack = t.txStack[:n-1]
 			}
@@ -147,8 +154,14 @@ func (s *Sys) park(t *Thread, point string, arg uint64) {
 }
 
 func (s *Sys) lockStr() string {
-	if s.closed {
+	s.mu.Lock()
+	closed, closing := s.closed, s.closing
+	s.mu.Unlock()
+	if closed {
 		return "closed"
+	}
+	if closing {
+		return "closing"
 	}
 	sh, p, rf := s.F.VerifLockState()
 	return fmt.Sprintf("shared=%d pending=%v reserved=%v", sh, p, !rf)
@@ -156,10 +169,20 @@ func (s *Sys) lockStr() string {
 
 // wouldBlock predicts from the real lock state whether releasing t blocks it.
 func (s *Sys) wouldBlock(t *Thread) bool {
-	sh, p, rf := s.F.VerifLockState()
-	switch t.point {
+	s.mu.Lock()
+	point, arg, closing, readers := t.point, t.arg, s.closing, s.readers
+	s.mu.Unlock()
+	var sh uint64
+	var p, rf bool
+	if closing {
+		// Close runs (or waits) concurrently and zeroes the File on return: use the harness' own counts
+		sh, p, rf = uint64(readers), true, false
+	} else {
+		sh, p, rf = s.F.VerifLockState()
+	}
+	switch point {
 	case "begin-wait":
-		if t.arg == 1 { // readonly
+		if arg == 1 { // readonly
 			return p
 		}
 		// the reserved lock is held by an active writer; once this thread got
@@ -214,6 +237,9 @@ func (s *Sys) waitFor(t *Thread, what string) bool {
 func (s *Sys) release(t *Thread, blocked bool) {
 	s.mu.Lock()
 	t.rel = t.gen
+	if t.point == "close-wait" {
+		s.closing = true
+	}
 	if blocked {
 		t.state = tBlocked
 	} else {
@@ -280,10 +306,13 @@ func (s *Sys) Run(bodies []func(t *Thread)) bool {
 		var parked []*Thread
 		alive := 0
 		for _, t := range s.threads {
-			if t.state != tDone {
+			s.mu.Lock()
+			st := t.state
+			s.mu.Unlock()
+			if st != tDone {
 				alive++
 			}
-			if t.state == tParked && s.eligible(t) {
+			if st == tParked && s.eligible(t) {
 				parked = append(parked, t)
 			}
 		}
@@ -329,6 +358,8 @@ func (s *Sys) Run(bodies []func(t *Thread)) bool {
 // transaction any more (Close zeroes the File; a Begin racing with it is out
 // of contract). Transactions still open are fine: Close has to wait for them.
 func (s *Sys) eligible(t *Thread) bool {
+	s.mu.Lock()
+	defer s.mu.Unlock()
 	if t.point != "close-wait" {
 		return true
 	}
